@@ -72,10 +72,9 @@ Proof.
   change (rfin w_numrun) with (ErrR 1) in H. rewrite B in H. discriminate H.
 Qed.
 
-(* Buffered() after a terminal error: slice bounds out of range (scanp survives setErr, buf does not) -
-   not part of the C17 statement, recorded in notes/C17.md *)
-Lemma buffered_panics_after_error : forall avx2,
-  Buffered (snd (decode_all (skip_one_fast avx2) inner_decode 5 (new_decoder (w_tail EOF) 4096))) = None.
+(* Buffered() after a terminal error used to panic (scanp survived setErr, the buffer did not); repaired in d6563a0 *)
+Lemma buffered_after_error_fixed : forall avx2,
+  Buffered (snd (decode_all (skip_one_fast avx2) inner_decode 5 (new_decoder (w_tail EOF) 4096))) = Some [].
 Proof. intros []; vm_compute; reflexivity. Qed.
 
 (* ---- encoder: the writer that fails on the newline *)
